@@ -56,6 +56,12 @@ EXTRA_SHAPES = [
     ('assoc-and-skip', [204004, 31021, 12001, 206008, 63250, 1015, 204000, 206012, 63251]),
     ('loop-with-ops-inside', [103002, 201130, 12001, 201000, 104000, 31001, 202129, 12001, 4024, 202000]),
     ('nested-loops', [102003, 1001, 103000, 31001, 12001, 101002, 4024, 2001]),
+    # a replication (its class-31 factor included) INSIDE an operator range opened and closed at the same level: the factor is a
+    # field like any other as far as the two execution paths are concerned
+    ('delayed-replication-under-201', [201132, 101000, 31001, 12001, 201000, 1001]),
+    ('delayed-replication-under-202-207', [207001, 102000, 31001, 12001, 10004, 207000, 202129, 101000, 31002, 12001, 202000, 1001]),
+    ('short-factor-under-201', [201130, 101000, 31000, 12001, 12001, 201000, 4024]),
+    ('fixed-and-delayed-under-201-202', [201130, 202129, 102002, 12001, 4024, 101000, 31001, 10004, 202000, 201000, 1001]),
     # a whole bitmap construct (closed by 235000) inside a replication that runs several times
     ('bitmap-in-fixed-replication', [109003, 12001, 4024, 222000, 101002, 31031, 101000, 31001, 33007, 235000]),
     ('bitmap-in-delayed-replication', [110000, 31001, 12001, 4024, 5001, 223000, 101003, 31031, 101000, 31001, 223255, 235000]),
@@ -372,7 +378,7 @@ def run_program(ctx, decs, encs, ids, B, D, mtv, origin, name=None, K=None, loca
             meta.update(local)
         try:
             msg = R.build_message(ids, B, D, AssignPolicy(rng, counts, bits, phase=ai), 2 if comp else 1 + ai % 2, comp,
-                                  [4, 3, 4, 2][ai % 4], meta)
+                                  [4, 3, 4, 2][ai % 4], meta, grey31=True)
         except R.Unsupported as e:
             ctx.count('r_unsupported_programs')
             ctx.add('r_unsupported', str(e)[:50])
